@@ -1066,6 +1066,22 @@ impl<'a> ClientAssociationOptions<'a> {
     }
 }
 
+/// Verification hook (feature `verif-hooks`):
+/// establish an association over an arbitrary transport.
+#[cfg(feature = "verif-hooks")]
+impl<'a> ClientAssociationOptions<'a> {
+    /// Request a new DICOM association over the given connected transport.
+    ///
+    /// Forwards to the same generic implementation as
+    /// [`establish`](Self::establish), with no AE title in the address.
+    pub fn verif_establish_over<S>(self, socket: S) -> Result<ClientAssociation<S>>
+    where
+        S: CloseSocket + std::io::Read + std::io::Write,
+    {
+        self.establish_impl(AeAddr::new_socket_addr("0.0.0.0:0"), socket)
+    }
+}
+
 /// A DICOM upper level association from the perspective
 /// of a requesting application entity.
 ///
@@ -1671,6 +1687,24 @@ impl<'a> ClientAssociationOptions<'a> {
             },
             _ => crate::association::TlsConfigMissingSnafu.fail()?,
         }
+    }
+}
+
+/// Verification hook (feature `verif-hooks`):
+/// establish an association over an arbitrary asynchronous transport.
+#[cfg(all(feature = "async", feature = "verif-hooks"))]
+impl<'a> ClientAssociationOptions<'a> {
+    /// Request a new DICOM association over the given connected transport.
+    ///
+    /// Forwards to the same generic implementation as
+    /// [`establish_async`](Self::establish_async),
+    /// with no AE title in the address.
+    pub async fn verif_establish_over_async<S>(self, socket: S) -> Result<AsyncClientAssociation<S>>
+    where
+        S: tokio::io::AsyncRead + tokio::io::AsyncWrite + Unpin + Send,
+    {
+        self.establish_impl_async(AeAddr::new_socket_addr("0.0.0.0:0"), socket)
+            .await
     }
 }
 
